@@ -136,6 +136,8 @@ def run(ctx):
             facts.flows_unchanged(gh, cs[0]["args"][0], row["source"])
         res.check(ok, "C15-R3", "header:%s" % row["setter"].split("::")[-1], cs[0].get("loc") if cs else gh.loc, "%s <- %s" % (row["setter"].split("::")[-1], row["source"]),
                   "%s is not fed from exactly %s" % (row["setter"], row["source"]))
+    for fname in spec["tecmp_payload"]:
+        fb.fn(fname)  # every anchor of the plumbing table must exist before any row is judged (else: exit 2, not half a verdict)
     for fname, rows in spec["tecmp_payload"].items():
         f = fb.fn(fname)
         for row in rows:
